@@ -146,6 +146,19 @@ def emit_all(emit) -> None:
 
     emit.guard(post_init)
 
+    def copy_preserving():
+        cdef = ast.parse(textwrap.dedent(inspect.getsource(Chop.copy_preserving))).body[0]
+        emit(
+            "c03CopyPreserving",
+            "(String × String) × List String × Bool",
+            _translate_copy_preserving(cdef),
+            "Chop.copy_preserving: (args[k1] = self.results[k2]; the keys set to None by the loop, in order; "
+            "`args[self.preserve] = self.results[self.preserve]` comes after the loop, then Chop(**args), "
+            "then `if inverted: chop.invert()`: true)",
+        )
+
+    emit.guard(copy_preserving)
+
 
 class TranslateError(Exception):
     pass
@@ -478,3 +491,68 @@ def _translate_post_init(fdef):
     if None in (names, k, dflt, clamp):
         raise TranslateError(f"{fdef.name}: a part of __post_init__ is missing: {(names, k, dflt, clamp)}")
     return (names, k, dflt, clamp)
+
+
+def _translate_copy_preserving(fdef):
+    """`Chop.copy_preserving`, statement by statement in this order; anything else raises."""
+    import ast
+
+    def fail(node, why):
+        raise TranslateError(f"{fdef.name}: line {getattr(node, 'lineno', '?')}: {why}: {ast.unparse(node)[:120]}")
+
+    params = [a.arg for a in fdef.args.args]
+    if len(params) != 2 or params[0] != "self":
+        fail(fdef, "unexpected parameters")
+    flag = params[1]
+    stmts = [s for s in fdef.body
+             if not (isinstance(s, ast.Expr) and isinstance(s.value, ast.Constant) and isinstance(s.value.value, str))]
+    if len(stmts) != 7:
+        fail(fdef, f"{len(stmts)} statements instead of 7")
+    s0, s1, s2, s3, s4, s5, s6 = stmts
+    # args = dataclasses.asdict(self)
+    if not (isinstance(s0, ast.Assign) and len(s0.targets) == 1 and isinstance(s0.targets[0], ast.Name)
+            and ast.unparse(s0.value) == "dataclasses.asdict(self)"):
+        fail(s0, "not `args = dataclasses.asdict(self)`")
+    d = s0.targets[0].id
+
+    def results_of(e):
+        if (isinstance(e, ast.Subscript) and isinstance(e.value, ast.Attribute) and e.value.attr == "results"
+                and isinstance(e.value.value, ast.Name) and e.value.value.id == "self"):
+            return e.slice
+        fail(e, "not self.results[...]")
+
+    def key_of(t):
+        if isinstance(t, ast.Subscript) and isinstance(t.value, ast.Name) and t.value.id == d:
+            return t.slice
+        fail(t, f"not {d}[...]")
+
+    # args["count"] = self.results["count"]
+    if not (isinstance(s1, ast.Assign) and len(s1.targets) == 1):
+        fail(s1, "unsupported statement")
+    k1, k2 = key_of(s1.targets[0]), results_of(s1.value)
+    if not all(isinstance(k, ast.Constant) and isinstance(k.value, str) for k in (k1, k2)):
+        fail(s1, "keys are not string constants")
+    # for arg in [...]: args[arg] = None
+    if not (isinstance(s2, ast.For) and isinstance(s2.target, ast.Name) and isinstance(s2.iter, ast.List) and not s2.orelse
+            and all(isinstance(x, ast.Constant) and isinstance(x.value, str) for x in s2.iter.elts) and len(s2.body) == 1
+            and isinstance(s2.body[0], ast.Assign) and len(s2.body[0].targets) == 1
+            and isinstance(key_of(s2.body[0].targets[0]), ast.Name) and key_of(s2.body[0].targets[0]).id == s2.target.id
+            and isinstance(s2.body[0].value, ast.Constant) and s2.body[0].value.value is None):
+        fail(s2, "not `for arg in [...]: args[arg] = None`")
+    cleared = [x.value for x in s2.iter.elts]
+    # args[self.preserve] = self.results[self.preserve]
+    if not (isinstance(s3, ast.Assign) and len(s3.targets) == 1 and ast.unparse(key_of(s3.targets[0])) == "self.preserve"
+            and ast.unparse(results_of(s3.value)) == "self.preserve"):
+        fail(s3, "not `args[self.preserve] = self.results[self.preserve]`")
+    # chop = Chop(**args)
+    if not (isinstance(s4, ast.Assign) and len(s4.targets) == 1 and isinstance(s4.targets[0], ast.Name)
+            and ast.unparse(s4.value) == f"Chop(**{d})"):
+        fail(s4, "not `chop = Chop(**args)`")
+    c = s4.targets[0].id
+    # if inverted: chop.invert()
+    if not (isinstance(s5, ast.If) and isinstance(s5.test, ast.Name) and s5.test.id == flag and not s5.orelse
+            and len(s5.body) == 1 and isinstance(s5.body[0], ast.Expr) and ast.unparse(s5.body[0].value) == f"{c}.invert()"):
+        fail(s5, "not `if inverted: chop.invert()`")
+    if not (isinstance(s6, ast.Return) and isinstance(s6.value, ast.Name) and s6.value.id == c):
+        fail(s6, "not `return chop`")
+    return ((k1.value, k2.value), cleared, True)
